@@ -319,13 +319,18 @@ def run_impl(case):
             return {"err": type(e).__name__, "stage": stage, "msg": str(e)[:160]}
         raise
     try:
+        fc = _canon(p.to_numpy())
+    except _NonInt as e:
+        # e.g. _predict_nan: the forecaster answered without a usable window
+        return {"nan_forecast": str(e), "n_predict_calls": sum(1 for e in _LOG if e["op"] == "predict")}
+    try:
         fits = [{"X": _canon(e["X"]), "ndim": int(e["X"].ndim), "t": _canon(e["y"]),
                  "tdim": int(e["y"].ndim)} for e in _LOG if e["op"] == "fit"]
         preds = [{"k": int(e["k"]), "X": _canon(e["X"]), "ndim": int(e["X"].ndim),
                   "ret": _canon(e["ret"])} for e in _LOG if e["op"] == "predict"]
         # order of events: all fits must precede all predicts
         order = "".join("f" if e["op"] == "fit" else "p" for e in _LOG)
-        return {"fits": fits, "preds": preds, "forecast": _canon(p.to_numpy()),
+        return {"fits": fits, "preds": preds, "forecast": fc,
                 "index": [int(i) for i in p.index], "order": order, "cls": type(f).__name__,
                 "cls_scitype": type(f)._estimator_scitype, "cls_strategy": type(f).strategy}
     except _NonInt as e:
@@ -426,6 +431,9 @@ def oracle(case, out):
         return None
     if "nonint" in out:
         return "row-contains-non-observation: non-integer data reached the regressor: " + out["nonint"]
+    if "nan_forecast" in out:
+        return ("forecast-not-regressor-output-for-step: forecast %s is not a regressor output "
+                "(%d predict calls were made)" % (out["nan_forecast"], out["n_predict_calls"]))
     zs = [case["y"]] + case["xs"]
     wl, fh = case["wl"], case["fh"]
     n = len(case["y"])
@@ -567,7 +575,7 @@ def oracle(case, out):
 def nontrivial(case, out):
     if case["kind"] == "infer":
         return True
-    if "nonint" in out:
+    if "nonint" in out or "nan_forecast" in out:
         return False
     n, wl, fh = len(case["y"]), case["wl"], case["fh"]
     fm = 1 if case.get("strategy") == "recursive" else fh[-1]
@@ -693,7 +701,7 @@ def _cinputs(case):
 
 def coq_case(case, out):
     k = case["kind"]
-    if out is None or "nonint" in out:
+    if out is None or "nonint" in out or "nan_forecast" in out:
         return None
     if k == "infer":
         e = case["estimator"]
